@@ -1,6 +1,6 @@
 #!/bin/bash
 # For every seeded/<ID>/patch.diff: apply it to a scratch copy of /repo, run that property's check (quick, then
-# thorough if quick stayed green) and record what was reported.  Writes seeded/RESULTS.md.  Scratch copies live
+# thorough if quick stayed green and SEEDED_THOROUGH is set) and record what was reported.  Writes seeded/RESULTS.md.  Scratch copies live
 # under the system temp dir and are removed right away.
 cd "$(dirname "$(readlink -f "$0")")/.." || exit 2
 only="${1:-}"
@@ -22,7 +22,8 @@ for d in seeded/*/; do
   if ! (cd "$tmp/repo" && patch -s -p1 < "$OLDPWD/$d/patch.diff"); then
     echo "| $name | $id | - | PATCH DOES NOT APPLY | - | |" >> "$tmpout"; rm -rf "$tmp"; continue
   fi
-  for tier in quick thorough; do
+  tiers="quick"; [ -n "$SEEDED_THOROUGH" ] && tiers="quick thorough"
+  for tier in $tiers; do
     start=$(date +%s)
     # (a seeded defect can make cases very slow; this script is a development aid, so it gives up instead of waiting)
     if [ "$tier" = quick ]; then lim=600; else lim=${SEEDED_THOROUGH_LIMIT:-1800}; fi
